@@ -71,7 +71,23 @@ def parseExp (s : Str) : Option Int :=
       | none => none
     else none
 
+/-- the driver's own spelling of a float (`ioFloat.showF / showW`): `x` and the 4, 8 or 16 hex digits of the float16 /
+float32 / float64 bit pattern. Only the text the MODEL writes uses it (ops that load what the model saved). -/
+def hexFloat? (s : Str) : Option Float :=
+  match s with
+  | 'x' :: ds =>
+    if ds.length = 4 ∨ ds.length = 8 ∨ ds.length = 16 then
+      match allSome (ds.map hexDigit?) with
+      | some vs =>
+        let n := vs.foldl (fun acc d => 16 * acc + d) 0
+        let (eb, mb) := if ds.length = 4 then (5, 10) else if ds.length = 8 then (8, 23) else (11, 52)
+        some (floatOfFVal (fvalOfBits eb mb n))
+      | none => none
+    else none
+  | _ => none
+
 def pyFloat (s : Str) : Option Float :=
+  if let some x := hexFloat? s then some x else
   let (neg, body) := match s with
     | '-' :: r => (true, r)
     | '+' :: r => (false, r)
@@ -219,7 +235,8 @@ def errName : Err → String
   | .xdimYdim => "xdimYdim" | .missingKey => "missingKey" | .missingDims => "missingDims"
   | .badNodata => "badNodata" | .badShape => "badShape" | .wrongCount => "wrongCount"
   | .pixelUnrecognised => "pixelUnrecognised" | .notDelineated => "notDelineated"
-  | .cornerOutside => "cornerOutside"
+  | .cornerOutside => "cornerOutside" | .badIndex => "badIndex" | .badBounds => "badBounds"
+  | .badFilename => "badFilename" | .delineationFailed => "delineationFailed" | .missingFile => "missingFile"
 
 def replyGrid : Except Err (Grid Float) → String
   | .ok g => "ok " ++ fmtGrid g
@@ -264,6 +281,51 @@ def parseEdit (tok : String) : Option (Edit Float) :=
     | _, _, _ => none
   | ["v", w] => w.toNat?.map .nodata
   | _ => none
+
+/-- a value offered to `dtype(value)`: `i:<int>` python int, `x:<float bits>` python float, `t:<code points>` text,
+`w:<word>` a scalar of the grid's dtype -/
+def parseNVal (fs : List String) : Option (NVal Float) :=
+  match fs with
+  | ["i", n] => n.toInt?.map .int
+  | ["x", h] => (floatTok? h).map .num
+  | ["t", str] => some (.text (parseDotStr str))
+  | ["w", w] => w.toNat?.map .word
+  | _ => none
+
+/-- an operation of the grid state machine: the edit tokens, plus `I:idx:w` (any python index), `F:<value>` (fill),
+`D3` (array with more than two dimensions), `V:<value>` (no-data), `m:<value>` / `M:<value>` (mindata / maxdata),
+`L:<I|M>:h<hex bytes>` (load) -/
+def parseOp (tok : String) : Option (Op Float) :=
+  match tok.splitOn ":" with
+  | ["I", idx, w] => match idx.toInt?, w.toNat? with
+    | some idx, some w => some (.itemAt idx w)
+    | _, _ => none
+  | "F" :: v => (parseNVal v).map .fillVal
+  | ["D3"] => some .dataND
+  | "V" :: v => (parseNVal v).map .nodataVal
+  | "m" :: v => (parseNVal v).map .mindata
+  | "M" :: v => (parseNVal v).map .maxdata
+  | ["L", bo, bytes] => (parseHexBytes bytes).map fun b => .load (if bo = "M" then .big else .little) b
+  | _ => (parseEdit tok).map .edit
+
+def fmtFlags (rs : List (Option Err)) : String :=
+  "[" ++ ",".intercalate (rs.map fun r => match r with | none => "-" | some e => errName e) ++ "]"
+
+/-- `o;inlets;area;filled` (`-` for no inlets, `!` in the place of the area when the kernel fails) -/
+def parseCOp (tok : String) : Option COp :=
+  match tok.splitOn ";" with
+  | [o, inl, area, filled] =>
+    match o.toInt?, parseIntListOpt inl with
+    | some o, some inl =>
+      if area = "!" then some (.delineate o inl none)
+      else match parseIntList? area, parseIntList? filled with
+        | some a, some f => some (.delineate o inl (some (a, f)))
+        | _, _ => none
+    | _, _ => none
+  | _ => none
+
+def optTok {β : Type} (f : String → Option β) (tok : String) : Option (Option β) :=
+  if tok = "-" then some none else (f tok).map some
 
 /-- three handles: the original (0), its clone (1), the clone of the clone (2) -/
 def runStore3 (s : Store) (hs : List Handle) : List (Nat × SOp) → Store × List Handle
@@ -317,7 +379,11 @@ def handle (toks : List String) : String :=
   | "fromdict" :: d =>
     match parseDict d with
     | none => "bad-op"
-    | some d => replyGrid (fromDict ioFloat d)
+    | some d =>
+      -- the same dictionary through the optional-key reader (`fromDictP_full`)
+      let r1 := replyGrid (fromDict ioFloat d)
+      let r2 := replyGrid (fromDictP ioFloat d.full)
+      if r1 = r2 then r1 else "model-inconsistent"
   | "clone" :: g =>
     match parseGrid g with
     | none => "bad-op"
@@ -346,6 +412,50 @@ def handle (toks : List String) : String :=
     match parseGrid (rest.take 15), allSome ((rest.drop 15).map parseEdit) with
     | some g, some es => replyGrid (applyEdits g es)
     | _, _ => "bad-op"
+  | "getitem" :: idx :: g =>
+    match parseGrid g, idx.toInt? with
+    | some g, some idx => (match getItem g idx with | .ok w => s!"ok {w}" | .error e => "err " ++ errName e)
+    | _, _ => "bad-op"
+  | "run" :: rest =>
+    match parseGrid (rest.take 15), allSome ((rest.drop 15).map parseOp) with
+    | some g, some ops => let (g', rs) := run ioFloat g ops; s!"ok {fmtFlags rs} {fmtGrid g'}"
+    | _, _ => "bad-op"
+  | "crun" :: name :: rest =>
+    match parseGrid (rest.take 15), allSome ((rest.drop 15).map parseCOp) with
+    | some g, some ops =>
+      let c0 : Catchment Float := { name := parseStr name, flowdir := g, outlet := none, inlets := none, area := none, filled := none }
+      let c := crun c0 ops
+      match catchToDict ioFloat c with
+      | .error e => "err " ++ errName e
+      | .ok d =>
+        match catchFromDict ioFloat d with
+        | .error e => "err " ++ errName e
+        | .ok c' => s!"ok {fmtStr c'.name} {fmtOptInt c'.outlet} {fmtIntListOpt c'.inlets} {fmtIntListOpt c'.area} {fmtIntListOpt c'.filled} "
+            ++ fmtGrid c'.flowdir
+    | _, _ => "bad-op"
+  | ["fromdictp", name, ncols, nrows, csz, xll, yll, dtype, nodata, comment] =>
+    match optTok (fun t => some (parseStr t)) name, optTok String.toInt? ncols, optTok String.toInt? nrows, optTok floatTok? csz,
+          optTok floatTok? xll, optTok floatTok? yll, optTok (fun t => some (parseStr t)) dtype,
+          optTok (fun t => parseNVal (t.splitOn ":")) nodata, optTok (fun t => some (parseStr t)) comment with
+    | some name, some ncols, some nrows, some csz, some xll, some yll, some dtype, some nodata, some comment =>
+      replyGrid (fromDictP ioFloat { name, ncols, nrows, csz, xll, yll, dtype, nodata, comment })
+    | _, _, _, _, _, _, _, _, _ => "bad-op"
+  | ["clipword", k, b, lo, hi, w] =>
+    match parseKind k, b.toNat?, parseOptInt lo, parseOptInt hi, w.toNat? with
+    | some k, some b, some lo, some hi, some w => toString (clipWord ⟨k, b⟩ lo hi w)
+    | _, _, _, _, _ => "bad-op"
+  | "files" :: how :: name :: probe :: g =>
+    -- save(d/name) into an empty file system, then from_header(d/probe) or from_zip(archive of d, d/probe)
+    match parseGrid g with
+    | none => "bad-op"
+    | some g =>
+      match saveFS ioFloat [] "d".toList (parseStr name) g with
+      | .error e => "err " ++ errName e
+      | .ok fs =>
+        let names := ";".intercalate (fs.map fun e => fmtStr e.1)
+        let r := if how = "zip" then fromZipFS ioFloat fs "d".toList (parseStr probe)
+                 else fromHeaderFS ioFloat fs "d".toList (parseStr probe)
+        s!"saved [{names}] " ++ replyGrid r
   | "store3" :: data :: ops =>
     match parseMat? data, allSome (ops.map parseSOp3) with
     | some rows, some ops =>
